@@ -157,5 +157,7 @@ def run(ck):
             proj.cleanup()
     ck.corr_record("T3 Like forms per configuration (user Like impl, regex literal, String pattern through the built-in impls, plain string) accepted / rejected by rustc",
                    2 * len(PROGS), 2 * len(PROGS), 0, adist, samples=[dict(program=PROGS["regex-literal"][1])], exhaustive=True, rule="%d programs x 2 configurations" % len(PROGS))
+    import parsetie
+    parsetie.light_tie(ck, "C16: the compiled programs' expectations read patterns with the model parser")
     ck.assumptions += ["cargo's additive feature unification is modelled by `resolve` for this two-crate graph and compared with `cargo tree -e features` on every run"]
     ck.trusted.append("the manifest translator tools/gen_wiring.py (its output is compared with cargo's own resolution on every run)")
